@@ -50,6 +50,13 @@ def run(ctx):
         # happen; but if a worker does die of it (say, of a mailbox that filled up), the daemon must exit
         for site in ("writer.recv", "poller.loop"):
             plans.append({"binary": "hooked", "site": site, "hit": 2, "action": "stall140000", "chronyd": "absent", "natural": "worker-stalls-140s", "optional_fault": True, "fire_within_s": 175})
+    # chronyd answers promptly, but with replies the client cannot use; then the writer dies
+    for mode in ("badversion", "badseq", "short", "errorstatus"):
+        for site, action, hit in (("writer.recv", "panic", 2), ("writer.done", "return", 3)):
+            plans.append({"binary": "hooked", "site": site, "hit": hit, "action": action, "chronyd": mode, "fire_within_s": 20})
+    # no room for the segment (ENOSPC): the daemon may give up at once; if it waits for room and the poller dies meanwhile, it must still exit
+    plans.append({"binary": "hooked", "site": "poller.loop", "hit": 3, "action": "panic", "chronyd": "absent", "natural": "segment-dir-full", "fire_within_s": 15})
+    plans.append({"binary": "release", "natural": "segment-dir-full", "chronyd": "answer", "fire_within_s": 10})
     # natural faults, release binary as shipped
     plans.append({"binary": "release", "natural": "shm-is-directory", "chronyd": "absent", "fire_within_s": 10})
     plans.append({"binary": "release", "natural": "shm-is-directory", "chronyd": "answer", "fire_within_s": 10})
